@@ -19,3 +19,151 @@ Theorem C14_normalisation_sound :
     traceA (sstep d mid) s ins = traceA (sstep_n d T mid) n ins.
 Proof. exact norm_traces_s. Qed.
 Print Assumptions C14_normalisation_sound.
+
+(** ** all-size theorems about the AS-CODED models of std.Fifo / std.Stack (Models/Ring.v: memory of N cells,
+    index registers of the coded width, [_next_index]/[_prev_index] as written).  [adm] = admissible under the
+    documented preconditions with arbitrary data values; [seg n mem rd k] = the k cells from rd on, round a
+    memory of n cells; [bseg pr mem idx k] = the k cells below idx. *)
+From Cohdl Require Import Models.Ring Models.RingProofs.
+Local Open Scope Z_scope.
+
+(** [Fifo._next_index] is +1 modulo N for every N >= 2 (wrap at N, or natural overflow for powers of two) *)
+Theorem C14_fifo_next_index_all_N : forall (N : nat) (i : Z), (2 <= N)%nat -> 0 <= i < Z.of_nat N ->
+  fifo_next N i = (i + 1) mod Z.of_nat N.
+Proof. exact fifo_next_index_mod. Qed.
+Print Assumptions C14_fifo_next_index_all_N.
+
+(** every N >= 2, every width, every admissible input sequence: the ring buffer shows the outputs
+    [dout; empty; full] of the abstract queue of capacity N-1 at every clock *)
+Theorem C14_fifo_ring_refines_queue_all_N : forall (N : nat) (w : BinNums.N), (2 <= N)%nat ->
+  forall ins, adm (queue_step N w) (queue_assume N) [0] ins ->
+    traceB (ring_step N w) (ring_init N) ins = traceB (queue_step N w) [0] ins.
+Proof. exact ring_refines_queue. Qed.
+Print Assumptions C14_fifo_ring_refines_queue_all_N.
+
+(** invariant and abstraction function: indices in range, occupancy (wr - rd) mod N, content = cells rd .. wr *)
+Theorem C14_fifo_ring_state_abstraction_all_N : forall (N : nat) (w : BinNums.N), (2 <= N)%nat ->
+  forall ins, adm (queue_step N w) (queue_assume N) [0] ins ->
+    exists dout rd wr mem,
+      run (ring_step N w) (ring_init N) ins = dout :: rd :: wr :: mem /\
+      length mem = N /\ 0 <= rd < Z.of_nat N /\ 0 <= wr < Z.of_nat N /\
+      run (queue_step N w) [0] ins =
+        dout :: seg (Z.of_nat N) mem rd (Z.to_nat ((wr - rd) mod Z.of_nat N)).
+Proof. exact ring_state_abstraction. Qed.
+Print Assumptions C14_fifo_ring_state_abstraction_all_N.
+
+(** the component's own empty/full flags state the documented preconditions *)
+Theorem C14_fifo_ring_preconditions_agree_all_N : forall (N : nat) (w : BinNums.N), (2 <= N)%nat ->
+  forall ins, adm (ring_step N w) (ring_assume N) (ring_init N) ins <->
+              adm (queue_step N w) (queue_assume N) [0] ins.
+Proof. exact ring_preconditions_agree. Qed.
+Print Assumptions C14_fifo_ring_preconditions_agree_all_N.
+
+(** capacity, every N >= 2: N-1 pushes in a row are admissible, the buffer then holds exactly these N-1
+    elements in push order and reports full (this is also the non-vacuity of the refinement for every N) *)
+Theorem C14_fifo_ring_holds_N_minus_1_all_N : forall (N : nat) (w : BinNums.N), (2 <= N)%nat ->
+  forall vs, length vs = (N - 1)%nat ->
+    adm (ring_step N w) (ring_assume N) (ring_init N) (map (push_in w) vs) /\
+    exists dout rd wr mem,
+      run (ring_step N w) (ring_init N) (map (push_in w) vs) = dout :: rd :: wr :: mem /\
+      seg (Z.of_nat N) mem rd (Z.to_nat ((wr - rd) mod Z.of_nat N)) = vs /\
+      fifo_next N wr = rd.
+Proof. exact ring_holds_N_minus_1. Qed.
+Print Assumptions C14_fifo_ring_holds_N_minus_1_all_N.
+
+(** a case theorem against the as-coded model and one against the abstract queue are interchangeable *)
+Theorem C14_fifo_ring_case_transfer_all_N : forall (N : nat) (w : BinNums.N), (2 <= N)%nat ->
+  forall (alphabet : list (list value)) (T : list (list value) -> list (res (list value))),
+    (forall ins, admissible (ring_step N w) alphabet (ring_assume N) (ring_init N) ins ->
+       T ins = traceB (ring_step N w) (ring_init N) ins) <->
+    (forall ins, admissible (queue_step N w) alphabet (queue_assume N) [0] ins ->
+       T ins = traceB (queue_step N w) [0] ins).
+Proof. exact ring_case_transfer. Qed.
+Print Assumptions C14_fifo_ring_case_transfer_all_N.
+
+(** tie to the code: the two computed hypotheses are what every generated Fifo case file of harness/c14.py
+    proves for its parsed design d (non-vacuity: each such case file); harness/c14.py additionally proves the
+    conclusion directly, per configuration, by a second exploration against [ring_step N] *)
+Theorem C14_fifo_code_matches_ring_all_N : forall d mid alphabet fuel (N : nat) (w : BinNums.N), (2 <= N)%nat ->
+  conc_all_ok (auto_Ts d) d = true ->
+  is_ok (rcheck_s d mid (queue_step N w) alphabet (queue_assume N) fuel [0]) = true ->
+  forall ins, admissible (ring_step N w) alphabet (ring_assume N) (ring_init N) ins ->
+    traceA (sstep d mid) (power_up_s d) ins = traceB (ring_step N w) (ring_init N) ins.
+Proof. exact ring_code_tie. Qed.
+Print Assumptions C14_fifo_code_matches_ring_all_N.
+
+(** non-vacuity at N = 5: pushes, pops and both in one clock; the 7th clock fills the buffer (4 elements) *)
+Definition C14_fifo_example_ins : list (list value) :=
+  let pu v := [VL true; VL false; VV KUns 8 v] in
+  let po := [VL false; VL true; VV KUns 8 0] in
+  let both v := [VL true; VL true; VV KUns 8 v] in
+  [pu 3; pu 7; both 9; po; pu 1; pu 2; pu 4; po; po; po; po].
+Example C14_fifo_ring_nonvacuous :
+  (2 <= 5)%nat /\
+  adm (queue_step 5 8) (queue_assume 5) [0] C14_fifo_example_ins /\
+  traceB (ring_step 5 8) (ring_init 5) C14_fifo_example_ins =
+    [Ok [ouns 8 0; obit false; obit false]; Ok [ouns 8 0; obit false; obit false];
+     Ok [ouns 8 3; obit false; obit false]; Ok [ouns 8 7; obit false; obit false];
+     Ok [ouns 8 7; obit false; obit false]; Ok [ouns 8 7; obit false; obit false];
+     Ok [ouns 8 7; obit false; obit true];
+     Ok [ouns 8 9; obit false; obit false]; Ok [ouns 8 1; obit false; obit false];
+     Ok [ouns 8 2; obit false; obit false]; Ok [ouns 8 4; obit true; obit false]].
+Proof. vm_compute. repeat split; repeat constructor. Qed.
+
+(** std.Stack, every N >= 1, both modes, every width, every admissible input sequence *)
+Theorem C14_stack_model_refines_stack_all_N : forall (N : nat) (w sw : BinNums.N) (drop_old : bool), (1 <= N)%nat ->
+  forall ins, adm (stack_step N w sw drop_old) (stack_assume N drop_old) [0] ins ->
+    traceB (stackm_step N w sw drop_old) (stackm_init N) ins = traceB (stack_step N w sw drop_old) [0] ins.
+Proof. exact stackm_refines_stack. Qed.
+Print Assumptions C14_stack_model_refines_stack_all_N.
+
+Theorem C14_stack_model_state_abstraction_all_N : forall (N : nat) (w sw : BinNums.N) (drop_old : bool), (1 <= N)%nat ->
+  forall ins, adm (stack_step N w sw drop_old) (stack_assume N drop_old) [0] ins ->
+    exists dout idx cnt mem,
+      run (stackm_step N w sw drop_old) (stackm_init N) ins = dout :: idx :: cnt :: mem /\
+      length mem = N /\
+      (if drop_old then 0 <= idx < Z.of_nat N /\ 0 <= cnt <= Z.of_nat N
+       else 0 <= idx <= Z.of_nat N /\ cnt = idx) /\
+      run (stack_step N w sw drop_old) [0] ins =
+        dout :: bseg (if drop_old then prd (Z.of_nat N) else prl) mem idx (Z.to_nat cnt).
+Proof. exact stackm_state_abstraction. Qed.
+Print Assumptions C14_stack_model_state_abstraction_all_N.
+
+Theorem C14_stack_model_preconditions_agree_all_N : forall (N : nat) (w sw : BinNums.N) (drop_old : bool), (1 <= N)%nat ->
+  forall ins, adm (stackm_step N w sw drop_old) (stackm_assume N drop_old) (stackm_init N) ins <->
+              adm (stack_step N w sw drop_old) (stack_assume N drop_old) [0] ins.
+Proof. exact stackm_preconditions_agree. Qed.
+Print Assumptions C14_stack_model_preconditions_agree_all_N.
+
+Theorem C14_stack_model_case_transfer_all_N : forall (N : nat) (w sw : BinNums.N) (drop_old : bool), (1 <= N)%nat ->
+  forall (alphabet : list (list value)) (T : list (list value) -> list (res (list value))),
+    (forall ins, admissible (stackm_step N w sw drop_old) alphabet (stackm_assume N drop_old) (stackm_init N) ins ->
+       T ins = traceB (stackm_step N w sw drop_old) (stackm_init N) ins) <->
+    (forall ins, admissible (stack_step N w sw drop_old) alphabet (stack_assume N drop_old) [0] ins ->
+       T ins = traceB (stack_step N w sw drop_old) [0] ins).
+Proof. exact stackm_case_transfer. Qed.
+Print Assumptions C14_stack_model_case_transfer_all_N.
+
+Theorem C14_stack_code_matches_model_all_N : forall d mid alphabet fuel (N : nat) (w sw : BinNums.N) (drop_old : bool), (1 <= N)%nat ->
+  conc_all_ok (auto_Ts d) d = true ->
+  is_ok (rcheck_s d mid (stack_step N w sw drop_old) alphabet (stack_assume N drop_old) fuel [0]) = true ->
+  forall ins, admissible (stackm_step N w sw drop_old) alphabet (stackm_assume N drop_old) (stackm_init N) ins ->
+    traceA (sstep d mid) (power_up_s d) ins = traceB (stackm_step N w sw drop_old) (stackm_init N) ins.
+Proof. exact stackm_code_tie. Qed.
+Print Assumptions C14_stack_code_matches_model_all_N.
+
+(** non-vacuity at N = 3, DROP_OLD: four pushes (the fourth discards the oldest element 1), then three pops
+    return 4, 3, 2; outputs [dout; empty; full; size] *)
+Definition C14_stack_example_ins : list (list value) :=
+  let pu v := [VL true; VL false; VL false; VV KUns 8 v] in
+  let po := [VL false; VL true; VL false; VV KUns 8 0] in
+  [pu 1; pu 2; pu 3; pu 4; po; po; po].
+Example C14_stack_model_nonvacuous :
+  (1 <= 3)%nat /\
+  adm (stack_step 3 8 2 true) (stack_assume 3 true) [0] C14_stack_example_ins /\
+  traceB (stackm_step 3 8 2 true) (stackm_init 3) C14_stack_example_ins =
+    [Ok [ouns 8 0; obit false; obit false; ouns 2 1]; Ok [ouns 8 0; obit false; obit false; ouns 2 2];
+     Ok [ouns 8 0; obit false; obit true; ouns 2 3]; Ok [ouns 8 0; obit false; obit true; ouns 2 3];
+     Ok [ouns 8 4; obit false; obit false; ouns 2 2]; Ok [ouns 8 3; obit false; obit false; ouns 2 1];
+     Ok [ouns 8 2; obit true; obit false; ouns 2 0]].
+Proof. vm_compute. repeat split; repeat constructor. Qed.
